@@ -1,6 +1,7 @@
 use super::prelude::*;
 use tokio::task::JoinHandle;
-use tokio::sync::mpsc::{channel, Sender};
+use tokio::sync::mpsc::{channel, error::TrySendError, Sender};
+use std::sync::atomic::AtomicU8;
 
 /// Max size of the channel between `Observer` and `ObserverWorker`
 const OBSERVER_CHANNEL_SIZE_LIMIT: usize = 1024;
@@ -53,7 +54,10 @@ pub(crate) struct Observer<K>
 where
     for<'a> K: Key<'a>,
 {
-    state: ObserverState<K>
+    state: ObserverState<K>,
+    /// Notifications that did not fit into the channel (bit per operation type). The worker takes them
+    /// after every processed message
+    pending_notifications: Arc<AtomicU8>,
 }
 
 #[derive(Debug)]
@@ -72,7 +76,8 @@ where
 {
     pub(crate) fn new(inner: Arc<Inner<K>>) -> Self {
         Self {
-            state: ObserverState::Created(inner)
+            state: ObserverState::Created(inner),
+            pending_notifications: Arc::new(AtomicU8::new(0)),
         }
     }
 
@@ -91,7 +96,8 @@ where
         let (sender, receiver) = channel(OBSERVER_CHANNEL_SIZE_LIMIT);  
         let worker = ObserverWorker::new(
             receiver,
-            inner
+            inner,
+            self.pending_notifications.clone()
         );
         #[cfg(pearl_verif)]
         let handle = crate::verif::spawn("worker", worker.run());
@@ -159,14 +165,23 @@ where
     /// Sends notification without waiting for free space in the channel.
     /// Notifications are sent by `write`/`delete` while the storage lock is held for read. Waiting for
     /// the channel there can deadlock with the worker: it needs the same lock for write to switch
-    /// the active blob and only then reads the next message. Dropped notification is not lost:
-    /// it is repeated by the following operations while its reason holds.
+    /// the active blob and only then reads the next message. A notification that does not fit is
+    /// remembered in `pending_notifications`: the worker takes it after the message it is processing.
     async fn try_send_msg(&self, msg: Msg) {
         if let ObserverState::Running(sender, _) = &self.state {
             #[cfg(pearl_verif)]
             crate::verif::point(crate::verif::Label::Send).await;
-            if let Err(e) = sender.try_send(msg) {
-                debug!("Notification was not sent to worker: {:?}", e);
+            match sender.try_send(msg) {
+                Ok(()) => {}
+                Err(TrySendError::Full(msg)) => {
+                    self.pending_notifications.fetch_or(1 << (msg.optype.clone() as u8), Ordering::SeqCst);
+                    // Second attempt: either the message gets through now, or the channel is still full after
+                    // the flag was set, and the worker will see the flag after one of the queued messages
+                    if let Err(e) = sender.try_send(msg) {
+                        debug!("Notification was not sent to worker, left as pending: {:?}", e);
+                    }
+                }
+                Err(e) => debug!("Notification was not sent to worker: {:?}", e),
             }
         } else {
             error!("storage observer task was not launched");
